@@ -42,6 +42,8 @@
 (*   ThmIdempotent   Out(d, y) = {y} for every y in Out(d, x)              *)
 (*   ThmMasked       masked inserts exactly the addressed entries          *)
 (*   ThmAll          the six above in one pass (big configurations)        *)
+(*   ThmScale        no absolute scale: input and value parameters times c  *)
+(*                   give the result times c (section MAGNITUDES)           *)
 (*   StepFootprint   (action) every step only touches its footprint        *)
 (*   ReapplyNoop     (action) Reapply never changes x                      *)
 (*   ScriptFootprint every recorded step of a script kept to its footprint *)
@@ -155,6 +157,7 @@ DPartial(mask)               == D("partial", All, << >>, mask, 0)
 DSync(mask)                  == D("sync", All, << >>, mask, 0)             \* <<i, j, c>>: c = 0 {i: j}, c # 0 {i: (j, c)}
 DSyncF(mask, form)           == D("sync", All, <<form>>, mask, 0)          \* c # 0 given as a callable: form 1 {i: (j, lambda t: c*t)},
                                                                            \*                             form 2 {i: (j, lambda t: t + c/S)}
+                                                                           \* form 3: c # 0 stands for the constant scale 0, {i: (j, 0)}
 DClipped(lo, hi, exit, g)    == D("clipped", All, <<lo, hi, exit>>, << >>, g)
 DSuppressed(tol, exit, g)    == D("suppressed", All, <<tol, exit>>, << >>, g)
 
@@ -195,9 +198,13 @@ RoundTo(a, u) ==
       ELSE IF q % 2 = 0 THEN q * u ELSE (q + 1) * u
 RECURSIVE Pow10(_)
 Pow10(e) == IF e = 0 THEN 1 ELSE 10 * Pow10(e - 1)
-(* digits -> rounding unit in 1/S; digits >= 1 keeps every lattice value (10 % S = 0 assumed) *)
+(* digits -> rounding unit in 1/S (0: every lattice value is kept).  digits >= 1: on a decimal lattice     *)
+(* (S a multiple of 10^digits, e.g. S = 10^9 with digits = 8) the unit is S / 10^digits; on a lattice that *)
+(* is coarser than 10^-digits (S = 2 with digits = 1: 10 % S = 0) every lattice value is kept.              *)
 Digits(d) == IF d.p[1] = NONE THEN 0 ELSE d.p[1]
-RoundUnit(d) == IF Digits(d) >= 1 THEN 0 ELSE S * Pow10(-Digits(d))
+RoundUnit(d) == IF Digits(d) >= 1
+                THEN (IF S % Pow10(Digits(d)) = 0 THEN S \div Pow10(Digits(d)) ELSE 0)
+                ELSE S * Pow10(-Digits(d))
 RoundEntry(d, a) == IF RoundUnit(d) = 0 THEN a ELSE RoundTo(a, RoundUnit(d))
 
 (* ascending sort of a sequence (duplicates kept): entry j is the value with rank j *)
@@ -311,7 +318,7 @@ AsDocExamples ==
   /\ AsDoc(10, <<0, 1, 0, 1>>,                     <<0, 10, 0, 0>>)
   /\ AsDoc(10, <<-1, -2, -3, -4, -5, -6>>,         <<-1, 9, -3, -1, -5, 5>>)
   /\ AsDoc(10, <<-1, -2, -3, -4, -5, -6, -7>>,     <<-1, 9, -3, -1, -5, 5, 15>>)
-ASSUME AsDocExamples
+ASSUME S <= 1000 => AsDocExamples          \* (the examples' values times S must stay inside TLC's 32-bit integers)
 
 -----------------------------------------------------------------------------
 (* footprint: positions (of the OUTPUT) a decorator may touch, for an input of length n *)
@@ -379,7 +386,9 @@ Masked(v, d) ==
 (* synchronized: the value entry i takes from its partner's value a; c = 0 plain {i: j}, else scaled by the   *)
 (* constant c ({i: (j, c)}, form 0), by the callable t -> c*t (form 1) or shifted by the callable t -> t + c/S *)
 SyncForm(d) == IF Len(d.p) = 0 THEN 0 ELSE d.p[1]
+(* (form 3: the scale of every entry with c # 0 is the constant 0 -- {i: (j, 0)}, a legal, falsy, scale) *)
 SyncVal(d, j, a) == IF d.iv[j][3] = 0 THEN a
+                    ELSE IF SyncForm(d) = 3 THEN 0
                     ELSE IF SyncForm(d) = 2 THEN a + d.iv[j][3] ELSE d.iv[j][3] * a
 
 T(d, v) ==
@@ -568,6 +577,9 @@ Reapply == /\ last # 0
 
 Next == (\E i \in 1..ND : Apply(i)) \/ Reapply
 Spec == Init /\ [][Next]_vars
+(* the start vectors alone (configurations whose start vectors are not closed under the decorators: long vectors); *)
+(* the theorems are state predicates that quantify over the catalogue, so nothing is lost but the closure            *)
+StartOnly == Init /\ [][UNCHANGED vars]_vars
 
 -----------------------------------------------------------------------------
 (* theorems: state invariants, quantified over the whole catalogue at every reachable vector. *)
@@ -609,6 +621,50 @@ AllAt(d) ==
                   \/ Culprit("ThmEntrywise", d)
             /\ (\A y \in O : Defined(d, y) /\ Out(d, y) = {y}) \/ Culprit("ThmIdempotent", d)
 ThmAll == InDomain(x) => \A i \in 1..ND : AllAt(DecSeq[i])
+(* the same for the deterministic decorators only: Out of a post-condition decorator enumerates every vector of  *)
+(* allowed representatives, which is exponential in the length (long vectors check those by replay alone)        *)
+ThmAllDet == InDomain(x) => \A i \in 1..ND : IsPost(DecSeq[i]) \/ AllAt(DecSeq[i])
+
+-----------------------------------------------------------------------------
+(* MAGNITUDES.  The decorators below do not know an absolute scale: multiplying the input AND every value     *)
+(* parameter (interval ends, samples, pinned value, offset, mask values, an additive callable's shift, clip    *)
+(* ends, the suppression tolerance) by the same c > 0 multiplies the result by c (and leaves the premise        *)
+(* alone); index selections, pairs, multiplicative scales of synchronized and the flags are not touched.        *)
+(* ThmScale states this for c in ScaleBy; the rounding decorators (fixed grid), the moment decorators          *)
+(* (their comparisons carry documented absolute/relative tolerances) and everything applied around the inner   *)
+(* function "add one half" are not scale-free.  The replay uses it with c = 2^e, e in ScaleExps (exact in      *)
+(* binary floating point): the integer v then stands for v * 2^e / S -- 5e-324 .. 1e-9 .. 1e10 .. 4e299.        *)
+ScaleFree(d) == d.g = 0 /\ d.k \in {"bounds", "discrete", "unique", "monotonic", "sorting", "at", "as",
+                                      "masked", "partial", "sync", "clipped", "suppressed"}
+ScaleBy == {2, 3}
+ScaleExps == <<-1073, -1000, -30, 33, 993>>
+Sc(a, c) == IF a \in {INF, -INF, NONE} THEN a ELSE c * a
+ScTup(t, c) == [j \in DOMAIN t |-> Sc(t[j], c)]
+ScaleD(d, c) ==
+  CASE d.k \in {"bounds", "discrete", "unique"} -> [d EXCEPT !.iv = [j \in DOMAIN d.iv |-> ScTup(d.iv[j], c)]]
+    [] d.k \in {"at", "as"}         -> [d EXCEPT !.p = <<Sc(d.p[1], c)>>]
+    [] d.k \in {"masked", "partial"} -> [d EXCEPT !.iv = [j \in DOMAIN d.iv |-> <<d.iv[j][1], c * d.iv[j][2]>>]]
+    [] d.k = "sync" /\ SyncForm(d) = 2 -> [d EXCEPT !.iv = [j \in DOMAIN d.iv |-> <<d.iv[j][1], d.iv[j][2], c * d.iv[j][3]>>]]
+    [] d.k = "clipped"              -> [d EXCEPT !.p = <<Sc(d.p[1], c), Sc(d.p[2], c), d.p[3]>>]
+    [] d.k = "suppressed"           -> [d EXCEPT !.p = <<c * d.p[1], d.p[2]>>]
+    [] OTHER                        -> d
+ScaleV(v, c) == [i \in DOMAIN v |-> c * v[i]]
+ScaleAt(d, c) ==
+  ScaleFree(d) =>
+    LET dc == ScaleD(d, c)
+        vc == ScaleV(x.v, c)
+    IN  /\ Defined(dc, Vec(vc, 1)) = Defined(d, x)
+        /\ Footprint(dc, Len(vc)) = Footprint(d, Len(x.v))
+        /\ Defined(d, x) =>
+             IF IsPost(d)
+             THEN Allowed(dc, vc) = [i \in DOMAIN x.v |-> {<<Sc(r[1], c), Sc(r[2], c)>> : r \in Allowed(d, x.v)[i]}]
+             ELSE F(dc, vc) = ScaleV(F(d, x.v), c)
+ThmScale == InDomain(x) => \A i \in 1..ND : \A c \in ScaleBy : ScaleAt(DecSeq[i], c) \/ Culprit("ThmScale", DecSeq[i])
+(* vacuity companion (deliberately FALSE, TLC must violate it): the rounding decorators have a fixed grid, they are not   *)
+(* scale-free -- which is why ScaleFree leaves them out and why ThmScale is not a tautology                             *)
+ScaleFreeRounding == InDomain(x) => \A i \in 1..ND : \A c \in ScaleBy :
+   LET d == DecSeq[i] IN (d.k \in {"integers", "rounded", "precision"} /\ d.g = 0 /\ Defined(d, x))
+                            => F(d, ScaleV(x.v, c)) = ScaleV(F(d, x.v), c)
 
 (* theorems on transitions (script mode: `last` names the decorator of the step) *)
 StepFootprint == [][(last' # 0 /\ Plain(DecSeq[last']) /\ DecSeq[last'].k # "masked") => SameOutside(DecSeq[last'], x, x')]_vars
@@ -637,7 +693,9 @@ Expect(d, y) ==
 ASSUME PrintT(<<"@@", ToJson([cat |-> DecSeq, S |-> S,
           foot |-> [i \in 1..ND |-> [n \in 1..(Max(Lens) + 1) |-> Footprint(DecSeq[i], n - 1)]],
           oor  |-> [i \in 1..ND |-> [n \in 1..(Max(Lens) + 1) |-> HasOOR(DecSeq[i].ix, n - 1)]],
-          ascls |-> [i \in 1..ND |-> [n \in 1..(Max(Lens) + 1) |-> AsClass(DecSeq[i], n - 1)]]])>>)
+          ascls |-> [i \in 1..ND |-> [n \in 1..(Max(Lens) + 1) |-> AsClass(DecSeq[i], n - 1)]],
+          sf |-> [i \in 1..ND |-> ScaleFree(DecSeq[i])],          \* scale-free (ThmScale): may be replayed at the magnitudes
+          ue |-> ScaleExps])>>)                                  \*   2^e, e in ue
 
 Emit == (MaxHist = 0 /\ InDomain(x)) =>
           PrintT(<<"@@", ToJson([x |-> x.v, e |-> [i \in 1..ND |-> Expect(DecSeq[i], x)]])>>)
